@@ -123,6 +123,8 @@ class Session:
         self.reseeded = {}  # id -> True once a sibling/child got another seed after the ref was taken
         self.last_run_step = {}
         self.history = []
+        self.pool = {}
+        self.pool_used = set()
         self.findings = []
         self.events = set()
         self.counts = {"tainted_runs": 0, "tainted_confirmed": 0, "tainted_first_runs": 0, "reruns": 0,
@@ -178,9 +180,15 @@ class Session:
         cfg = dict(self.cfg[src])
         try:
             if method == "with_simulator":
-                obj = make_sim(arg)
+                # "Quest" = a fresh object; "Quest@k" = the user's own (unseeded) object k, handed to
+                # several configurations
+                kind = arg.split("@")[0]
+                obj = self.pool.setdefault(arg, make_sim(kind)) if "@" in arg else make_sim(kind)
+                if "@" in arg:
+                    self.events.add("with_simulator:user_object_reused" if arg in self.pool_used else "with_simulator:user_object")
+                    self.pool_used.add(arg)
                 new = parent.with_simulator(obj)
-                cfg["sim"] = arg
+                cfg["sim"] = kind
             elif method in SIM_OF_METHOD:
                 new = getattr(parent, method)()
                 cfg["sim"] = SIM_OF_METHOD[method]
@@ -199,7 +207,7 @@ class Session:
             g = max(self.group_seed) + 1
             self.group.append(g)
             self.group_seed[g] = UNSET
-            if new.simulator is parent.simulator:
+            if new.simulator is parent.simulator and "@" not in str(arg):
                 self.find(f"derive_wrong.{method}.simulator_object", "simulator object not replaced")
         else:
             g = self.group[src]
@@ -377,6 +385,7 @@ def worker(ctx):
         st.tuples(st.just("with_shot_offset"), st.integers(0, 2)),
         st.tuples(st.just("with_shot_increment"), st.integers(1, 2)),
         st.tuples(st.just("with_simulator"), st.sampled_from(SIMS)),
+        st.tuples(st.just("with_simulator"), st.sampled_from([s_ + "@" + k for s_ in SIMS for k in "01"])),
         st.tuples(st.sampled_from(sorted(SIM_OF_METHOD)), st.none()),
         st.tuples(st.sampled_from(sorted(SIM_OF_METHOD)), st.none()),
     )
@@ -428,6 +437,23 @@ def worker(ctx):
             self.s.run(r)
             self._report()
             return r
+
+        @rule(target=instances, a=instances, b=instances, sim=st.sampled_from([s_ + "@0" for s_ in SIMS]),
+              s1=st.sampled_from(SEEDS), s2=st.sampled_from(SEEDS), order=st.booleans())
+        def same_user_simulator_twice(self, a, b, sim, s1, s2, order):
+            """one user-built simulator object handed to two configurations (seed set before or after)"""
+            if self.skip:
+                return 0
+            if order:
+                x = self.s.derive(self.s.derive(a, "with_seed", s1), "with_simulator", sim)
+            else:
+                x = self.s.derive(self.s.derive(a, "with_simulator", sim), "with_seed", s1)
+            self.s.run(x)
+            y = self.s.derive(self.s.derive(b, "with_seed", s2), "with_simulator", sim)
+            self.s.run(y)
+            self.s.run(x)
+            self._report()
+            return x
 
         @rule(src=instances)
         def run(self, src):
@@ -528,8 +554,8 @@ SPEC = harness.Spec(
         "two seeded instances with identical options (seed, shots, shot_offset, shot_increment, simulator type) "
         "are the same configuration and must return identical results",
         "the bundled simulators are deterministic for a fixed seed (held on every run observed)",
-        "with_simulator is always given a fresh, unseeded simulator object; a simulator object that the user "
-        "shares between instances or seeds himself is outside the domain",
+        "with_simulator is given a fresh, unseeded simulator object or one of two per-kind user objects that are handed "
+        "to several configurations (never seeded by the user himself: a user-seeded simulator is outside the domain)",
         "unseeded instances: only the shape of the results is checked",
     ],
     shards={"quick": 16, "thorough": 16}, budget_s={"quick": 90, "thorough": 700},
